@@ -100,6 +100,14 @@ Definition all_states (p : sgr -> bool) (l : list cell) : bool := forallb (fun c
 
 Definition only_bg (bg : option color) : sgr := mkSgr None bg false false false false false false.
 
+(* the same characters in the same order, each showing at most what it showed before *)
+Fixpoint chars_within (res orig : list cell) : bool :=
+  match res, orig with
+  | [], [] => true
+  | r :: res', o :: orig' => N.eqb (fst r) (fst o) && sgr_le (snd r) (snd o) && chars_within res' orig'
+  | _, _ => false
+  end.
+
 Definition spec_ok (c : case) : bool :=
   let '(f, k, py, got) := c in
   let l := cells f in
@@ -157,6 +165,10 @@ Definition spec_ok (c : case) : bool :=
              let orig := if lft then firstn n rc else skipn k rc in
              let pad := if lft then skipn n rc else firstn k rc in
              all_states (fun st => shown_by_some st (states l)) rc &&
+             (* the original characters, in order, each with at most its own formatting;
+                a padding cell shows only what EVERY character of f shows *)
+             chars_within orig l &&
+             all_states (fun st => sgr_le st m) pad &&
              match fill with
              | Some _ => all_states (fun st => sgr_eqb st m) rc
              | None =>
